@@ -87,12 +87,24 @@ pub fn generate(g: &mut G, index: u64) -> Scenario {
         // a join future that was polled once and is then left alone must not keep later
         // operations from resolving
         let kept_join = owning && g.chance(1, 5);
-        if kept_join {
+        // ... nor must two joins that are pending at the same time in different tasks
+        let pair = kept_join && g.chance(1, 2);
+        if pair {
+            ops.push(Op::JoinStart { h: PRIMARY });
+            ops.push(Op::JoinStart { h: PRIMARY });
+            ops.push(Op::JoinSpawn);
+            ops.push(Op::Yield(g.range(1, 3) as u32));
+            ops.push(Op::JoinPoll);
+        } else if kept_join {
             ops.push(Op::JoinStart { h: PRIMARY });
             ops.push(Op::JoinPoll);
         }
         ops.push(Op::Stop { h: PRIMARY });
         match g.below(3) {
+            _ if pair => {
+                ops.push(Op::JoinFinish);
+                ops.push(Op::JoinCollect);
+            }
             _ if kept_join => {
                 ops.push(Op::Await { h: PRIMARY, on_clone: true });
                 ops.push(Op::Join { h: PRIMARY });
@@ -159,7 +171,7 @@ pub fn check(v: &View) -> Vec<Violation> {
         for o in v.ops.iter().filter(|o| !o.ended()) {
             // waiting for the end of an actor that runs on, is still held by somebody (be it the
             // waiter itself) and was never asked to stop is not a hang, it is what was asked for
-            if matches!(o.inner, Op::Join { .. } | Op::JoinFinish | Op::JoinPoll | Op::DropThenJoin { .. } | Op::Await { .. } | Op::Take { .. }) {
+            if matches!(o.inner, Op::Join { .. } | Op::JoinFinish | Op::JoinPoll | Op::JoinCollect | Op::DropThenJoin { .. } | Op::Await { .. } | Op::Take { .. }) {
                 let ends = o.target.and_then(|t| v.actor_of(t)).is_some_and(|a| {
                     let t = o.target.unwrap();
                     a.dead.is_some()
@@ -246,6 +258,8 @@ pub fn op_name(o: &Op) -> &'static str {
         Op::JoinFinish => "join_finish",
         Op::JoinDiscard => "join_discard",
         Op::JoinPoll => "join_poll",
+        Op::JoinSpawn => "join_spawn",
+        Op::JoinCollect => "join_collect",
         Op::Clone { .. } => "clone",
         Op::Downgrade { .. } => "downgrade",
         Op::Upgrade { .. } => "upgrade",
